@@ -295,11 +295,13 @@ func Run(r *fw.Run) {
 	// (e) MatchPrefixPatterns
 	gl := r.Pick(5, 6)
 	tl := r.Pick(4, 5)
-	r.Bounds["glob_alphabet"] = []string{"a", "b", "*", "?", "/", ",", "[", "]"}
+	globAlpha := []string{"a", "b", "*", "?", "/", ",", "[", "]", "\\"}
+	r.Bounds["glob_alphabet"] = globAlpha
+	r.Bounds["target_alphabet"] = []string{"a", "b", "/", "\\"}
 	r.Bounds["glob_max_len"] = gl
 	r.Bounds["target_max_len"] = tl
-	targets := enum.AllStrings([]string{"a", "b", "/"}, tl)
-	enum.Strings([]string{"a", "b", "*", "?", "/", ",", "[", "]"}, gl, fw.Workers(), func(w int) (func([]byte, int), func()) {
+	targets := enum.AllStrings([]string{"a", "b", "/", "\\"}, tl)
+	enum.Strings(globAlpha, gl, fw.Workers(), func(w int) (func([]byte, int), func()) {
 		l := fw.NewLocal()
 		return func(b []byte, d int) {
 			g := string(b)
